@@ -87,7 +87,7 @@ def prior_attr_del(fn, name, line):
 def attr_del_between(fn, name, start, end):
     """a `del name.attr` / `del name[i]` located after `start` and before `end` (positions)."""
     for n in ast.walk(fn):
-        if isinstance(n, ast.Delete) and start < (n.lineno, n.col_offset) < end:
+        if isinstance(n, ast.Delete) and start < (n.lineno, n.col_offset) and (n.end_lineno, n.end_col_offset) <= end:
             for t in n.targets:
                 if isinstance(t, (ast.Attribute, ast.Subscript)) and ROOT_RE.match(spec.spell(t)).group(1) == name:
                     return True
@@ -194,6 +194,164 @@ def in_xattr_object(pm, node):
     return False
 
 
+def judge_case(res, c, trees, stage=None, meta=None):
+    """one analysed function (visitlib.Case / c17pos.FileCase): correspondence + the binder oracle."""
+    from props import c17order as order
+    res.evaluations += 1
+    case = {"function": c.fn_src}
+    if stage is not None:
+        case["stage"] = stage
+        if meta:
+            case["meta"] = meta
+        if getattr(c, "file", None):
+            case["file"], case["via"] = c.file, c.via
+    if c.diff is not None:
+        res.disagreements.append({"case": case, "diff": c.diff[:2000]})
+    tree = trees.get(c.module_src)
+    if tree is None:
+        tree = trees[c.module_src] = ast.parse(c.module_src)
+    if isinstance(c.fn, ast.Lambda):
+        return            # a lambda body is a single expression: no statements to read straight-line
+    fn = next(n for n in ast.walk(tree) if isinstance(n, (ast.FunctionDef, ast.AsyncFunctionDef))
+              and n.name == c.name and n.lineno == c.fn.lineno)
+    anywhere = binder.bound_anywhere(tree)
+    module_names = binder.module_bound(tree)
+    if any(isinstance(n, (ast.Assign, ast.For, ast.With, ast.NamedExpr, ast.AugAssign, ast.AnnAssign)) for n in ast.walk(fn)):
+        res.nontrivial.add(common.digest(c.fn_src))
+    warned = {}
+    accs = spec.accesses(fn, spec.local_class_names(fn, vl.MODULE_CLASSES))
+    pm = spec.parent_map(fn)
+    for ev in c.events:
+        m = re.match(r"^'(.*)' potentially undefined$", ev["message"])
+        if not m:
+            continue
+        name = m.group(1)
+        warned.setdefault(name, set()).add((ev["line"], ev["col"]))
+        wb = order.walrus_at_chain_base(fn, ev["line"], ev["col"], name)
+        if wb is not None and binder.bound_at(tree, fn, ev["line"], ev["col"]) not in (binder.EXEMPT, None):
+            # `(x := e).a` / `(x := e)[i]` / `*(x := e)` / `(x := e)(...)`: the value whose attribute / item is taken
+            # IS the walrus, so `x` has just been bound; the expression holds no load of `x` at all
+            sig = "spurious-warning:bound-by-walrus:the-reported-name-chain-starts-at-the-walrus-itself"
+            res.count("verdict:" + sig)
+            res.violations.append({"signature": sig, "case": case, "name": name, "line": ev["line"], "col": ev["col"],
+                                   "bound_by": "walrus", "expression": ast.unparse(wb[0])})
+            continue
+        b, via = order.bound_for_load(tree, fn, pm, ev["line"], ev["col"], name)
+        if b is binder.EXEMPT or b is None:
+            res.count("warning:in-nested-scope-or-unlocated")
+            continue
+        if name not in b:
+            res.count("warning:justified")
+            continue
+        res.count("warning:name-bound-via:" + via)
+        node = node_at(fn, ev["line"], ev["col"])
+        how = b[name]
+        lb = latest_binding(fn, accs, name, ev["line"], ev["col"])
+        if lb is not None and lb.tags and how not in ("parameter",):
+            cause = "binding-in-position-rattr-does-not-visit"
+        elif how == "assign" and rejected_namedtuple_binding(fn, name, ev["line"] + 1):
+            cause = "bound-by-assign:namedtuple-declaration-rejected"
+        elif lb is not None and how.startswith("walrus") and inside_plugin_scope(pm, lb.node):
+            cause = "bound-by-walrus-inside-defaultdict-factory-expression"
+        elif isinstance(node, ast.Name) and isinstance(node.ctx, ast.Del):
+            cause = "on-the-del-statement-itself"
+        elif attr_del_between(fn, name, (lb.node.lineno, lb.node.col_offset) if lb is not None else (0, 0),
+                              (ev["line"], ev["col"])):
+            cause = "after-del-of-attribute-or-item"
+        else:
+            cause = "bound-by-" + how
+            if via == "earlier-in-the-same-statement":
+                cause += order.same_statement_shape(fn, pm, lb.node if lb is not None else None, ev["line"], ev["col"], name)
+        sig = "spurious-warning:" + cause
+        res.count("verdict:" + sig)
+        res.violations.append({"signature": sig, "case": case, "name": name, "line": ev["line"], "col": ev["col"],
+                               "bound_by": how, "via": via})
+    if c.im["outcome"] != "ok":
+        return
+    # must-warn
+    for a in accs:
+        if a.tags or a.kind == "set":
+            continue
+        root = ROOT_RE.match(a.name).group(1)
+        if not root or root.startswith("@"):
+            continue
+        if root not in anywhere:
+            if root in warned:
+                res.count("must-warn:undefined-name:warned")
+            else:
+                if in_xattr_object(pm, a.node) or (isinstance(a.node, ast.Call) and spec.direct_xattr(a.node)):
+                    cause = "getattr-family-object"
+                elif store_rebinding_base(fn, root, 10 ** 9):
+                    cause = "base-registered-by-attribute-or-item-store"
+                else:
+                    cause = "plain"
+                sig = "missing-warning:undefined-name:" + cause
+                res.count("verdict:" + sig)
+                res.violations.append({"signature": sig, "case": case, "name": root, "line": a.node.lineno})
+            continue
+        b = binder.bound_at(tree, fn, a.node.lineno, a.node.col_offset)
+        if b is binder.EXEMPT or b is None or root in b:
+            continue
+        if root in order.header_walruses(fn, a.node.lineno, a.node.col_offset) or root in order.possible_same_statement(fn, a.node):
+            continue        # (re)bound by a walrus of an enclosing header / of the same statement
+        if prior_name_del(fn, root, a.node.lineno) and a.kind != "del":
+            if (a.node.lineno, a.node.col_offset) in warned.get(root, ()):
+                res.count("must-warn:use-after-del:warned")
+            else:
+                if in_xattr_object(pm, a.node) or (isinstance(a.node, ast.Call) and spec.direct_xattr(a.node)):
+                    cause = "getattr-family-object"
+                elif same_statement_rebinds(fn, root, a.node.lineno, a.node.col_offset):
+                    cause = "rebound-by-target-of-the-same-statement"
+                elif root in module_names:
+                    cause = "local-named-like-module-level-name-or-builtin"
+                elif store_rebinding_base(fn, root, a.node.lineno):
+                    cause = "base-rebound-by-attribute-or-item-store"
+                else:
+                    cause = "plain"
+                sig = "missing-warning:use-after-del:" + cause
+                res.count("verdict:" + sig)
+                res.violations.append({"signature": sig, "case": case, "name": root, "line": a.node.lineno})
+    if stage is None:
+        res.sample({"function": c.fn_src, "warnings": sorted(warned)}, cap=3)
+
+
+def run_positions_stage(res, rng, tier, model, trees):
+    from props import c17pos
+    quick = tier == "quick"
+    fns = (c17pos.walrus_functions(rng, 100 if quick else 2500, core=0.45 if quick else 1.0)
+           + c17pos.call_functions(rng, 100 if quick else 4000, core=0.45 if quick else 1.0))
+    ok_fns = []
+    for c, meta in c17pos.run_functions(fns, model):
+        res.count("positions:" + meta["family"])
+        res.count("positions:outcome:" + c.im["outcome"])
+        judge_case(res, c, trees, stage="positions", meta=meta)
+        if c.im["outcome"] == "ok":
+            ok_fns.append((c.name, next(s for n, s, _ in fns if n == c.name), meta))
+    # whole files: the same functions (those that end normally) through the CLI and in-process, in the target and in a
+    # followed import
+    rng.shuffle(ok_fns)
+    n_runs = 2 if quick else 8
+    per = 60 if quick else 150
+    for i in range(n_runs):
+        part = ok_fns[i * 2 * per:(i + 1) * 2 * per]
+        if len(part) < 4:
+            break
+        style = ["from-star", "import", "from-names"][i % 3]
+        files = c17pos.file_project(part[:len(part) // 2], part[len(part) // 2:], style)
+        via = "cli" if i % 2 == 0 else "in-process"
+        run = c17pos.run_files(files, 1 + i % 2, via)
+        res.count(f"positions:file-run:{via}:{run['outcome']}")
+        if run["outcome"] != "ok":
+            res.internal_errors.append({"what": "positions stage: a file run over functions that each end normally did not",
+                                        "via": via, "outcome": run["outcome"], "exc": run.get("exc", "")[:300],
+                                        "files": files})
+            continue
+        metas = {n: m for n, _, m in part}
+        for fc in c17pos.file_cases(files, run, via):
+            res.count(f"positions:file-function:{fc.file}")
+            judge_case(res, fc, trees, stage="positions-file", meta=dict(metas.get(fc.name, {}), argv=run["argv"], import_style=style))
+
+
 def run(tier, seed, build):
     warnings.simplefilter("ignore")
     res = common.Result(PID)
@@ -208,7 +366,15 @@ def run(tier, seed, build):
                 "in-process (parse_arguments -> Config -> main) and through the real CLI; a 'potentially undefined' "
                 "warning about a name CPython has in that module's namespace is a violation; every module also goes "
                 "through the Lean root-context / file-analyser model under the run's exclusion patterns; non-trivial "
-                "there = distinct project run with >= 1 exclusion pattern that ended normally")
+                "there = distinct project run with >= 1 exclusion pattern that ended normally. POSITIONS stage "
+                "(props/c17pos.py, oracle refinement props/c17order.py): walrus-position forms (base of an attribute / item / "
+                "starred / call chain, argument / keyword / ** operand of every call kind, operator operand, index, f-string, "
+                "display element / key / value, comprehension condition / element / iterable, lambda, getattr-family ...) x "
+                "statement contexts x uses (same statement, body of the compound statement, after it); call kinds x argument "
+                "layouts (undefined / walrus-bound / deleted / bound name in positional, keyword, *, ** slots) x statement "
+                "contexts (assigned one-to-one, annotated, walrus, returned, discarded, nested ...): real FunctionAnalyser vs "
+                "Lean model, then whole files through the CLI and in-process, in the target and in a followed import; "
+                "non-trivial there = distinct function")
     rng = random.Random(seed)
     n_modules = 60 if tier == "quick" else 900
     model = common.Model()
@@ -225,104 +391,18 @@ def run(tier, seed, build):
                               n_cli=12 if quick else 90, n_model=30 if quick else 350)
     trees = {}
     for c in cases:
-        res.evaluations += 1
-        case = {"function": c.fn_src}
-        if c.diff is not None:
-            res.disagreements.append({"case": case, "diff": c.diff[:2000]})
-        tree = trees.get(c.module_src)
-        if tree is None:
-            tree = trees[c.module_src] = ast.parse(c.module_src)
-        if isinstance(c.fn, ast.Lambda):
-            continue            # a lambda body is a single expression: no statements to read straight-line
-        fn = next(n for n in ast.walk(tree) if isinstance(n, (ast.FunctionDef, ast.AsyncFunctionDef))
-                  and n.name == c.name and n.lineno == c.fn.lineno)
-        anywhere = binder.bound_anywhere(tree)
-        module_names = binder.module_bound(tree)
-        if any(isinstance(n, (ast.Assign, ast.For, ast.With, ast.NamedExpr, ast.AugAssign, ast.AnnAssign)) for n in ast.walk(fn)):
-            res.nontrivial.add(common.digest(c.fn_src))
-        warned = {}
-        accs = spec.accesses(fn, spec.local_class_names(fn, vl.MODULE_CLASSES))
-        pm = spec.parent_map(fn)
-        for ev in c.events:
-            m = re.match(r"^'(.*)' potentially undefined$", ev["message"])
-            if not m:
-                continue
-            name = m.group(1)
-            warned.setdefault(name, set()).add((ev["line"], ev["col"]))
-            b = binder.bound_at(tree, fn, ev["line"], ev["col"])
-            if b is binder.EXEMPT or b is None:
-                res.count("warning:in-nested-scope-or-unlocated")
-                continue
-            if name not in b:
-                res.count("warning:justified")
-                continue
-            node = node_at(fn, ev["line"], ev["col"])
-            how = b[name]
-            lb = latest_binding(fn, accs, name, ev["line"], ev["col"])
-            if lb is not None and lb.tags and how not in ("parameter",):
-                cause = "binding-in-position-rattr-does-not-visit"
-            elif how == "assign" and rejected_namedtuple_binding(fn, name, ev["line"] + 1):
-                cause = "bound-by-assign:namedtuple-declaration-rejected"
-            elif lb is not None and how.startswith("walrus") and inside_plugin_scope(pm, lb.node):
-                cause = "bound-by-walrus-inside-defaultdict-factory-expression"
-            elif isinstance(node, ast.Name) and isinstance(node.ctx, ast.Del):
-                cause = "on-the-del-statement-itself"
-            elif attr_del_between(fn, name, (lb.node.lineno, lb.node.col_offset) if lb is not None else (0, 0),
-                                  (ev["line"], ev["col"])):
-                cause = "after-del-of-attribute-or-item"
-            else:
-                cause = "bound-by-" + how
-            sig = "spurious-warning:" + cause
-            res.count("verdict:" + sig)
-            res.violations.append({"signature": sig, "case": case, "name": name, "line": ev["line"], "col": ev["col"],
-                                   "bound_by": how})
-        if c.im["outcome"] != "ok":
-            continue
-        # must-warn
-        for a in accs:
-            if a.tags or a.kind == "set":
-                continue
-            root = ROOT_RE.match(a.name).group(1)
-            if not root or root.startswith("@"):
-                continue
-            if root not in anywhere:
-                if root in warned:
-                    res.count("must-warn:undefined-name:warned")
-                else:
-                    if in_xattr_object(pm, a.node) or (isinstance(a.node, ast.Call) and spec.direct_xattr(a.node)):
-                        cause = "getattr-family-object"
-                    elif store_rebinding_base(fn, root, 10 ** 9):
-                        cause = "base-registered-by-attribute-or-item-store"
-                    else:
-                        cause = "plain"
-                    sig = "missing-warning:undefined-name:" + cause
-                    res.count("verdict:" + sig)
-                    res.violations.append({"signature": sig, "case": case, "name": root, "line": a.node.lineno})
-                continue
-            b = binder.bound_at(tree, fn, a.node.lineno, a.node.col_offset)
-            if b is binder.EXEMPT or b is None or root in b:
-                continue
-            if prior_name_del(fn, root, a.node.lineno) and a.kind != "del":
-                if (a.node.lineno, a.node.col_offset) in warned.get(root, ()):
-                    res.count("must-warn:use-after-del:warned")
-                else:
-                    if in_xattr_object(pm, a.node) or (isinstance(a.node, ast.Call) and spec.direct_xattr(a.node)):
-                        cause = "getattr-family-object"
-                    elif same_statement_rebinds(fn, root, a.node.lineno, a.node.col_offset):
-                        cause = "rebound-by-target-of-the-same-statement"
-                    elif root in module_names:
-                        cause = "local-named-like-module-level-name-or-builtin"
-                    elif store_rebinding_base(fn, root, a.node.lineno):
-                        cause = "base-rebound-by-attribute-or-item-store"
-                    else:
-                        cause = "plain"
-                    sig = "missing-warning:use-after-del:" + cause
-                    res.count("verdict:" + sig)
-                    res.violations.append({"signature": sig, "case": case, "name": root, "line": a.node.lineno})
-        res.sample({"function": c.fn_src, "warnings": sorted(warned)}, cap=3)
+        judge_case(res, c, trees)
+    # where inside a statement a binding / an unbound load sits (props/c17pos.py): walrus positions x statement
+    # contexts x uses, call kinds x argument layouts x statement contexts; FunctionAnalyser + Lean model, then
+    # whole files through the CLI / in-process, target and followed import
+    run_positions_stage(res, random.Random(seed + 27017), tier, model, trees)
     res.assumptions = [
         "[interp] straight-line reading: a name counts as bound at a use only if a PREVIOUS statement (or an enclosing header: for / with / except / match / comprehension) bound it",
         "[interp] warnings located inside nested def / lambda / class bodies are not judged",
+        "[interp] sub-statement order (props/c17order.py): a walrus also counts as an earlier binding when it sits in the header "
+        "of an enclosing for / with / match statement, or in the same statement and is both textually complete before the load "
+        "and evaluated before it by CPython (not in the other arm of a conditional expression, not inside a comprehension / "
+        "nested scope); a warning located on a name chain whose base IS `(x := ...)` is a warning about a bound name",
         "[interp] options stage: a module-level name is what CPython's import of the module leaves in vars(module); "
         "targets of a module-level for / with statement are bindings but none of 'definition, import or assignment': "
         "warnings about them are counted, not judged",
@@ -339,5 +419,47 @@ def replay(path):
     if isinstance(d.get("case"), dict) and d["case"].get("stage") == "options":
         from props import c17opts
         return c17opts.replay(d)
+    if isinstance(d.get("case"), dict) and "function" in d["case"] and d.get("signature"):
+        return replay_function(d)
     print(json.dumps(d, indent=1)[:5000])
     return 0
+
+
+def replay_function(d):
+    """re-run one recorded function: the real FunctionAnalyser (+ Lean model) and, for a file-stage case, the real
+    CLI on a one-function project (in the target or in a followed import, as recorded); 1 if the verdict reproduces."""
+    from props import c17pos
+    from props.bodygen import PREAMBLE
+    warnings.simplefilter("ignore")
+    case = d["case"]
+    src = case["function"] + "\n"
+    name = re.match(r"^(?:async )?def (\w+)", src).group(1)
+    print(PREAMBLE.rstrip() + "\n\n" + src)
+    hits = 0
+    res = common.Result("REPLAY")
+    fname = name
+    cases = c17pos.run_functions([(fname, src, case.get("meta") or {})], common.Model())
+    for c, meta in cases:
+        print("[FunctionAnalyser] outcome:", c.im["outcome"], " undefined-name warnings:",
+              sorted((e["line"], e["col"], e["message"]) for e in c.events if "potentially undefined" in e["message"]))
+        if c.diff:
+            print("[model != implementation]", c.diff[:600])
+        judge_case(res, c, {}, stage="replay", meta=meta)
+    if case.get("stage") == "positions-file":
+        other = ("other0", "def other0(a, b):\n    return a.x\n", {})
+        mine = (fname, src, {})
+        files = c17pos.file_project([mine] if case.get("file") == "target.py" else [other],
+                                    [other] if case.get("file") == "target.py" else [mine],
+                                    (case.get("meta") or {}).get("import_style", "from-star"))
+        for via in ("cli", "in-process"):
+            run = c17pos.run_files(files, 1, via)
+            print(f"[{via}] (cd <project>; python -m rattr {' '.join(run['argv'])})  outcome={run['outcome']} warnings={sorted(set(run['warnings']))}")
+            for fc in c17pos.file_cases(files, run, via):
+                judge_case(res, fc, {}, stage="replay-file")
+    for v in res.violations:
+        mark = v["signature"] == d["signature"] and v.get("name") == d.get("name")
+        hits += bool(mark)
+        print("VIOLATION", v["signature"], "name=" + str(v.get("name")), "line=" + str(v.get("line")),
+              "(" + v["case"].get("via", "function-analyser") + ")", " <== the recorded violation" if mark else "")
+    print("reproduced" if hits else "not reproduced")
+    return 1 if hits else 0
